@@ -2,7 +2,6 @@ package c34
 
 import (
 	"fmt"
-	"math/big"
 	"strings"
 	"testing"
 	"unicode/utf8"
@@ -14,12 +13,12 @@ import (
 
 // Proposed known-finding ids for the string functions (see notes/C34.md).
 const (
-	kfInsertBytes   = "C34-insert-byte-positions"   // INSERT() slices bytes, not characters
-	kfPadBytes      = "C34-pad-byte-lengths"        // LPAD/RPAD measure and cut bytes
-	kfLocateBytes   = "C34-locate-byte-positions"   // LOCATE() returns byte positions
-	kfLocateCase    = "C34-locate-ignores-case"     // LOCATE() lower-cases both strings under the case-sensitive default collation; INSTR() does not
-	kfRepeatNeg     = "C34-repeat-negative-error"   // REPEAT(s, n<0) fails instead of returning ''
-	kfLocateNullPos = "C34-locate-null-position"    // LOCATE(t,s,NULL) is evaluated as LOCATE(t,s,1)
+	kfInsertBytes   = "C34-insert-byte-positions" // INSERT() slices bytes, not characters
+	kfPadBytes      = "C34-pad-byte-lengths"      // LPAD/RPAD measure and cut bytes
+	kfLocateBytes   = "C34-locate-byte-positions" // LOCATE() returns byte positions
+	kfLocateCase    = "C34-locate-ignores-case"   // LOCATE() lower-cases both strings under the case-sensitive default collation; INSTR() does not
+	kfRepeatNeg     = "C34-repeat-negative-error" // REPEAT(s, n<0) fails instead of returning ''
+	kfLocateNullPos = "C34-locate-null-position"  // LOCATE(t,s,NULL) is evaluated as LOCATE(t,s,1)
 )
 
 var asciiAlphabet = []string{"a", "b", "A", "B", " ", "0", "x"}
@@ -193,7 +192,7 @@ func TestC34(t *testing.T) {
 				if err != nil || !ok || !r.IsInt() {
 					return ""
 				}
-				return knownLoc(1)(new(big.Rat).SetInt64(r.Num().Int64()+int64(loc)), nil)
+				return knownLoc(1)(r.Num().Int64()+int64(loc), nil) // the engine's INSTR is exact: LOCATE = difference + INSTR
 			}
 			add("POSITION(t IN s) = first occurrence", f("POSITION(%s IN %s)", T, S), []string{"s", "t"}, wantInt(int64(loc))).known = knownLoc(1)
 			if loc > 0 {
